@@ -14,6 +14,7 @@ import (
 	revresult "github.com/notaryproject/notation-core-go/revocation/result"
 	"github.com/notaryproject/notation-core-go/signature"
 	"github.com/notaryproject/notation-go"
+	"github.com/notaryproject/notation-go/plugin"
 	"github.com/notaryproject/notation-go/verifier"
 	"github.com/notaryproject/notation-go/verifier/trustpolicy"
 	"github.com/notaryproject/notation-go/xverif/common"
@@ -23,15 +24,17 @@ import (
 )
 
 type Input struct {
-	Vec            []string `json:"vec"`
-	ChainLen       int      `json:"chainLen"`
-	Scheme         string   `json:"scheme"`
-	Iface          string   `json:"iface"`
-	Action         string   `json:"action"`
-	ValidatorError bool     `json:"validatorError"`
-	Methods        []string `json:"methods"`
-	ServerErrors   []bool   `json:"serverErrors"`
-	IdentityPlugin bool     `json:"identityPlugin"`
+	Vec              []string `json:"vec"`
+	ChainLen         int      `json:"chainLen"`
+	Scheme           string   `json:"scheme"`
+	Iface            string   `json:"iface"`
+	Action           string   `json:"action"`
+	ValidatorError   bool     `json:"validatorError"`
+	Methods          []string `json:"methods"`
+	ServerErrors     []bool   `json:"serverErrors"`
+	ErrorWithResults bool     `json:"errorWithResults"`
+	DeprecatedCtor   bool     `json:"deprecatedCtor"`
+	IdentityPlugin   bool     `json:"identityPlugin"`
 }
 
 type Obs struct {
@@ -49,10 +52,20 @@ var target = ocispec.Descriptor{MediaType: "application/vnd.oci.image.manifest.v
 type world struct {
 	chains map[int]*common.Chain // by length
 	envs   map[string][]byte     // by length/scheme/format
+	// verifiers live as long as the run: one per configuration, reused by every case of that
+	// configuration (a fresh one for every seventh case as control)
+	verifiers map[string]*liveVerifier
+	uses      int
+}
+
+type liveVerifier struct {
+	v     notation.Verifier
+	store *common.MemStore
+	rev   *common.ScriptedRevocation
 }
 
 func newWorld() *world {
-	w := &world{chains: map[int]*common.Chain{}, envs: map[string][]byte{}}
+	w := &world{chains: map[int]*common.Chain{}, envs: map[string][]byte{}, verifiers: map[string]*liveVerifier{}}
 	nb := time.Now().Add(-48 * time.Hour)
 	for n := 1; n <= 4; n++ {
 		o := common.ChainOpts{Tag: fmt.Sprintf("c05-%d", n), RootNB: nb, InterNB: nb, LeafNB: nb}
@@ -100,11 +113,8 @@ func runCase(w *world, in Input, format string) Obs {
 		scheme, storeType = common.SchemeAuthority, "signingAuthority"
 	}
 	env := w.env(n, scheme, format, in.IdentityPlugin)
-	store := common.NewMemStore()
-	store.Certs[storeType+":c05"] = []*x509.Certificate{chain.Root().Cert}
-	rev := &common.ScriptedRevocation{}
-	rev.Results = func(c []*x509.Certificate) ([]*revresult.CertRevocationResult, error) {
-		if in.ValidatorError {
+	results := func(c []*x509.Certificate) ([]*revresult.CertRevocationResult, error) {
+		if in.ValidatorError && !in.ErrorWithResults {
 			return nil, errors.New("validator failure")
 		}
 		out := make([]*revresult.CertRevocationResult, len(in.Vec))
@@ -121,37 +131,69 @@ func runCase(w *world, in Input, format string) Obs {
 			cr.ServerResults = []*revresult.ServerResult{sr}
 			out[k] = cr
 		}
+		if in.ValidatorError {
+			return out, errors.New("validator interrupted")
+		}
 		return out, nil
 	}
-	var ov map[trustpolicy.ValidationType]trustpolicy.ValidationAction
-	if in.Action != "enforce" {
-		ov = map[trustpolicy.ValidationType]trustpolicy.ValidationAction{trustpolicy.TypeRevocation: trustpolicy.ValidationAction(in.Action)}
-	}
-	doc := &trustpolicy.OCIDocument{Version: "1.0", TrustPolicies: []trustpolicy.OCITrustPolicy{{
-		Name: "c05", RegistryScopes: []string{"*"},
-		SignatureVerification: trustpolicy.SignatureVerification{VerificationLevel: "strict", Override: ov},
-		TrustStores:           []string{storeType + ":c05"},
-		TrustedIdentities:     []string{"*"},
-	}}}
-	opts := verifier.VerifierOptions{OCITrustPolicy: doc}
-	if in.IdentityPlugin {
-		// a plugin that owns the trusted-identity check only and approves the identity
-		opts.PluginManager = &common.ScriptedManager{Plugins: map[string]pluginfw.Plugin{identityPluginName: &common.ScriptedPlugin{
-			Metadata: &pluginfw.GetMetadataResponse{Name: identityPluginName, Description: "d", Version: "1.0.0", URL: "u",
-				SupportedContractVersions: []string{"1.0"}, Capabilities: []pluginfw.Capability{pluginfw.CapabilityTrustedIdentityVerifier}},
-			VerifyResp: &pluginfw.VerifySignatureResponse{VerificationResults: map[pluginfw.Capability]*pluginfw.VerificationResult{
-				pluginfw.CapabilityTrustedIdentityVerifier: {Success: true}}},
+	key := fmt.Sprint(n, in.Scheme, in.Iface, in.Action, in.IdentityPlugin, in.DeprecatedCtor)
+	w.uses++
+	lv := w.verifiers[key]
+	if lv == nil || w.uses%7 == 0 {
+		store := common.NewMemStore()
+		store.Certs[storeType+":c05"] = []*x509.Certificate{chain.Root().Cert}
+		rev := &common.ScriptedRevocation{}
+		var ov map[trustpolicy.ValidationType]trustpolicy.ValidationAction
+		if in.Action != "enforce" {
+			ov = map[trustpolicy.ValidationType]trustpolicy.ValidationAction{trustpolicy.TypeRevocation: trustpolicy.ValidationAction(in.Action)}
+		}
+		doc := &trustpolicy.OCIDocument{Version: "1.0", TrustPolicies: []trustpolicy.OCITrustPolicy{{
+			Name: "c05", RegistryScopes: []string{"*"},
+			SignatureVerification: trustpolicy.SignatureVerification{VerificationLevel: "strict", Override: ov},
+			TrustStores:           []string{storeType + ":c05"},
+			TrustedIdentities:     []string{"*"},
 		}}}
+		opts := verifier.VerifierOptions{OCITrustPolicy: doc}
+		var mgr *common.ScriptedManager
+		if in.IdentityPlugin {
+			// a plugin that owns the trusted-identity check only and approves the identity
+			mgr = &common.ScriptedManager{Plugins: map[string]pluginfw.Plugin{identityPluginName: &common.ScriptedPlugin{
+				Metadata: &pluginfw.GetMetadataResponse{Name: identityPluginName, Description: "d", Version: "1.0.0", URL: "u",
+					SupportedContractVersions: []string{"1.0"}, Capabilities: []pluginfw.Capability{pluginfw.CapabilityTrustedIdentityVerifier}},
+				VerifyResp: &pluginfw.VerifySignatureResponse{VerificationResults: map[pluginfw.Capability]*pluginfw.VerificationResult{
+					pluginfw.CapabilityTrustedIdentityVerifier: {Success: true}}},
+			}}}
+			opts.PluginManager = mgr
+		}
+		if in.Iface == "validator" {
+			opts.RevocationCodeSigningValidator = rev
+		} else {
+			opts.RevocationClient = rev.ClientView()
+		}
+		var v notation.Verifier
+		var err error
+		if in.DeprecatedCtor {
+			// the deprecated constructor takes policy and plugin manager as arguments
+			var pm plugin.Manager
+			if mgr != nil {
+				pm = mgr
+			}
+			o2 := opts
+			o2.OCITrustPolicy, o2.PluginManager = nil, nil
+			v, err = verifier.NewWithOptions(doc, store, pm, o2)
+		} else {
+			v, err = verifier.NewVerifierWithOptions(store, opts)
+		}
+		if err != nil {
+			panic(err)
+		}
+		lv = &liveVerifier{v: v, store: store, rev: rev}
+		w.verifiers[key] = lv
 	}
-	if in.Iface == "validator" {
-		opts.RevocationCodeSigningValidator = rev
-	} else {
-		opts.RevocationClient = rev.ClientView()
-	}
-	v, err := verifier.NewVerifierWithOptions(store, opts)
-	if err != nil {
-		panic(err)
-	}
+	rev := lv.rev
+	rev.Results = results
+	rev.Calls = nil
+	v := lv.v
 	outcome, verr := v.Verify(context.Background(), target, env, notation.VerifierVerifyOptions{
 		ArtifactReference: "reg.example/c05@" + target.Digest.String(), SignatureMediaType: format})
 	o := Obs{Outcome: "notPerformed", Accepted: verr == nil, Calls: len(rev.Calls)}
@@ -237,6 +279,7 @@ func Run(c *common.Ctx) error {
 									continue
 								}
 								in := Input{Vec: vec, ChainLen: n, Scheme: scheme, Iface: iface, Action: action, ValidatorError: verr,
+									ErrorWithResults: verr && c.Rand.Intn(2) == 0, DeprecatedCtor: c.Rand.Intn(3) == 0,
 									IdentityPlugin: c.Rand.Intn(4) == 0}
 								for k := 0; k < n; k++ {
 									in.Methods = append(in.Methods, methods[c.Rand.Intn(len(methods))])
